@@ -247,3 +247,48 @@ def r3_mask_elision(ck, P):
         ck.ok(R, 'operator optimisation uses src_flags & mask_flags')
     else:
         ck.violation(R, g.name, 'source/mask conjunction', 'the operator is strength-reduced for an opaque source without requiring the mask to be opaque too', '%s:%d' % (g.unit.name, g.line))
+
+
+def r6_outside_is_transparent(ck, P):
+    """a sample outside a non-repeating image is transparent black, also for formats without alpha"""
+    R = ck.rule('C09-R6', 'where a fetcher substitutes the constant 0 for a sample outside a non-repeating image (a phi of 0 and fetched pixels), that 0 reaches the filter arithmetic unchanged: the alpha-forcing mask of alpha-less formats is or-ed into fetched pixels before the merge, never into the merged value', floor=4)
+    n = 0
+    for f in P.functions():
+        if f.unit.name not in ('pixman-fast-path.c', 'pixman-bits-image.c'):
+            continue
+
+        def from_fetch(o, d=0):
+            if o[0] != 'v' or d > 4:
+                return False
+            y = f.by_id[o[1]]
+            if y.op == 'call' and (y.callee is None or (isinstance(y.callee, str) and any(k in y.callee for k in ('convert_pixel', 'fetch', 'get_pixel')))):
+                return True
+            if y.op in ('or', 'phi'):
+                return any(from_fetch(a, d + 1) for a in y.a)
+            return False
+
+        for x in f.insts():
+            if x.op != 'phi' or x.ty != 'i32' or not any(a[0] == 'c' and int(a[1]) == 0 for a in x.a) or not any(from_fetch(a) for a in x.a):
+                continue
+            n += 1; ck.saw(f)
+            # follow the merged value through further phis; an `or` with something that is not a constant re-introduces bits into the 0
+            bad = None; seen = set(); work = [x]
+            while work and bad is None:
+                y = work.pop()
+                if y.i in seen:
+                    continue
+                seen.add(y.i)
+                for z in f.users(y):
+                    if z.op == 'phi':
+                        work.append(z)
+                    elif z.op in ('or', 'add') and not any(o[0] == 'c' for o in z.a):
+                        other = [o for o in z.a if o != ['v', y.i]]
+                        if other and not from_fetch(other[0]):
+                            bad = z
+            where = '%s: %s = phi (0, fetched pixels)' % (f.name, x.dv or 'value %d' % x.i)
+            if bad is None:
+                ck.ok(R, where)
+            else:
+                ck.violation(R, f.name, 'bits or-ed into the merged sample', '%s combines the merged sample (0 when outside a non-repeating image) with a run-time mask at %s: for alpha-less formats the outside becomes opaque black instead of transparent, so an opaque picture presented as x8r8g8b8 composites differently from the same picture as a8r8g8b8 with alpha 255' % (f.name, bad.loc()), bad.loc())
+    if n == 0:
+        ck.incomplete(R, 'no fetcher substitutes 0 for outside samples')
